@@ -221,6 +221,57 @@ func compareConsumedEmitted(cs, es []tok) string {
 func ruleLimitComparisons(c *core.Ctx, rule string) {
 	limits := map[string]bool{"MaxStringSize": true, "MaxPayloadSize": true, "listValueMaxSize": true, "rawValueMaxSize": true, "capabilityMapSizeMax": true}
 	n := 0
+	seenLimit := map[string]bool{}
+	// a limit handed to a helper (readSize(r, rawValueMaxSize, ErrRawValueTooLong)):
+	// the helper's parameter stands for the limit in the helper's comparisons
+	paramLimit := map[types.Object]string{}
+	for _, rel := range []string{"type/basic", "type/value", "type/encoding", "bus/net", "bus", "meta/signature"} {
+		p := c.Pkg(rel)
+		if p == nil {
+			continue
+		}
+		decls := map[types.Object]*ast.FuncDecl{}
+		for _, f := range p.Syntax {
+			for _, d := range f.Decls {
+				if fd, ok := d.(*ast.FuncDecl); ok {
+					decls[p.TypesInfo.Defs[fd.Name]] = fd
+				}
+			}
+		}
+		for _, f := range p.Syntax {
+			ast.Inspect(f, func(nd ast.Node) bool {
+				call, ok := nd.(*ast.CallExpr)
+				if !ok {
+					return true
+				}
+				var callee types.Object
+				switch fun := call.Fun.(type) {
+				case *ast.Ident:
+					callee = p.TypesInfo.Uses[fun]
+				case *ast.SelectorExpr:
+					callee = p.TypesInfo.Uses[fun.Sel]
+				}
+				fd := decls[callee]
+				if fd == nil || fd.Type.Params == nil {
+					return true
+				}
+				var params []*ast.Ident
+				for _, fl := range fd.Type.Params.List {
+					params = append(params, fl.Names...)
+				}
+				for i, a := range call.Args {
+					id, ok := a.(*ast.Ident)
+					if !ok || i >= len(params) {
+						continue
+					}
+					if k, ok := p.TypesInfo.Uses[id].(*types.Const); ok && limits[k.Name()] {
+						paramLimit[p.TypesInfo.Defs[params[i]]] = k.Name()
+					}
+				}
+				return true
+			})
+		}
+	}
 	for _, rel := range []string{"type/basic", "type/value", "type/encoding", "bus/net", "bus", "meta/signature"} {
 		p := c.Pkg(rel)
 		if p == nil {
@@ -243,6 +294,9 @@ func ruleLimitComparisons(c *core.Ctx, rule string) {
 						if id, ok := m.(*ast.Ident); ok {
 							if k, ok := p.TypesInfo.Uses[id].(*types.Const); ok && limits[k.Name()] {
 								found = k.Name()
+							}
+							if l := paramLimit[p.TypesInfo.Uses[id]]; l != "" {
+								found = l
 							}
 						}
 						if _, isBin := m.(*ast.BinaryExpr); isBin && m != ast.Node(e) {
@@ -272,6 +326,7 @@ func ruleLimitComparisons(c *core.Ctx, rule string) {
 				}
 				n++
 				ord[lim]++
+				seenLimit[lim] = true
 				key := fmt.Sprintf("%s/%s#%d", strings.TrimPrefix(fname, c.Repo+"/"), lim, ord[lim])
 				// the limit bounds the size itself: a side that adds something (header size,
 				// one more element) bounds another quantity than its siblings do
@@ -305,7 +360,20 @@ func ruleLimitComparisons(c *core.Ctx, rule string) {
 			})
 		}
 	}
-	if n < 8 {
+	// vacuity guard: every limit that is declared is compared somewhere (how many
+	// times depends on how the checks are factored: five tests may share one predicate)
+	for _, rel := range []string{"type/basic", "type/value", "type/encoding", "bus/net", "bus", "meta/signature"} {
+		p := c.Pkg(rel)
+		if p == nil || p.Types == nil {
+			continue
+		}
+		for name := range limits {
+			if k, ok := p.Types.Scope().Lookup(name).(*types.Const); ok && k != nil && !seenLimit[name] {
+				c.Undecided(rule, "limit comparisons/"+name, token.NoPos, "the size limit "+name+" is declared but never compared with anything: the rule no longer finds the comparisons it was written for")
+			}
+		}
+	}
+	if n < 5 {
 		c.Undecided(rule, "limit comparisons", token.NoPos, fmt.Sprintf("only %d comparisons with a size limit found", n))
 	}
 }
